@@ -57,7 +57,13 @@ type Op struct {
 type Case struct {
 	Sync bool `json:"sync"`
 	Ops  []Op `json:"ops"`
+	// Heavy: "big" values are 3000 bytes and stay INLINE (value threshold 4096), so that a
+	// handful of multi-entry transactions fills the 64 KiB memtable and the production code
+	// rotates memtable and WAL by itself (ensureRoomForWrite) while the flusher is parked.
+	Heavy bool `json:"heavy"`
 }
+
+var heavy bool
 
 // concretisation: model keys 1..6, groups: 1 = {1,2}, 2 = {3,4}, 3 = {5,6}
 var keyNames = []string{"", "a/1", "a/2\x00", "b/1", "b/\xff", "c", "c/0"}
@@ -79,6 +85,9 @@ func valueOf(v int, big bool) []byte {
 	n := 9
 	if big {
 		n = 80
+		if heavy {
+			n = 3000
+		}
 	}
 	s := fmt.Sprintf("v%06d.", v)
 	for len(s) < n {
@@ -105,6 +114,9 @@ func dbOptions(dir string, syncWrites, enc bool) badger.Options {
 	o := vh.SmallOptions(dir)
 	o.MemTableSize = 64 << 10
 	o.ValueThreshold = 32
+	if heavy {
+		o.ValueThreshold = 4096
+	}
 	o.ValueLogMaxEntries = 2
 	o.SyncWrites = syncWrites
 	o.Compression = options.None
@@ -147,6 +159,7 @@ type Image struct {
 type ImageSet struct {
 	Enc    bool
 	Sync   bool
+	Heavy  bool
 	Blobs  []Blob
 	Images []Image
 }
@@ -758,6 +771,7 @@ func readCase(path string) Case {
 	if err := json.Unmarshal(b, &c); err != nil {
 		vh.Fatalf("parse case: %v", err)
 	}
+	heavy = c.Heavy
 	return c
 }
 
@@ -777,7 +791,7 @@ func cmdRun(args []string) {
 	if err := r.run(); err != nil {
 		vh.Fatalf("workload: %v", err)
 	}
-	set := ImageSet{Enc: *enc, Sync: c.Sync, Blobs: r.store.blobs, Images: r.images}
+	set := ImageSet{Enc: *enc, Sync: c.Sync, Heavy: c.Heavy, Blobs: r.store.blobs, Images: r.images}
 	f, err := os.Create(filepath.Join(*out, "images.gob"))
 	if err != nil {
 		vh.Fatalf("create: %v", err)
@@ -1068,6 +1082,7 @@ func cmdCheck(args []string) {
 		vh.Fatalf("decode: %v", err)
 	}
 	f.Close()
+	heavy = set.Heavy
 	var idx []int
 	if *list == "" {
 		for i := range set.Images {
@@ -1125,6 +1140,7 @@ func cmdTorn(args []string) {
 		vh.Fatalf("decode: %v", err)
 	}
 	f.Close()
+	heavy = set.Heavy
 	enc := json.NewEncoder(os.Stdout)
 	for _, s := range strings.Split(*list, ",") {
 		i, err := strconv.Atoi(s)
@@ -1166,7 +1182,9 @@ func cmdCheckDir(args []string) {
 	fs := flag.NewFlagSet("checkdir", flag.ExitOnError)
 	dir := fs.String("dir", "", "directory")
 	enc := fs.Bool("enc", false, "encrypted")
+	hv := fs.Bool("heavy", false, "heavy workload (3000-byte inline values)")
 	fs.Parse(args)
+	heavy = *hv
 	o := observe(*dir, *enc, false)
 	json.NewEncoder(os.Stdout).Encode(o)
 }
